@@ -1,18 +1,21 @@
 #!/bin/bash
-# usage: mutest.sh <PROP> <count> <file-in-repo> <sed-expr> — apply a sed mutation to /repo, run the worker batch, revert.
-# Development aid for sensitivity checks (never leaves /repo modified).
+# usage: mutest.sh <PROP> <count> <file-in-repo> <sed-expr>
+# Development aid for sensitivity checks: applies a sed mutation to a scratch worktree of /repo (never /repo itself),
+# builds the worker against it, runs <count> plans and prints the violation classes. The worktree is removed.
 PROP=$1; COUNT=$2; FILE=$3; EXPR=$4
 export GOFLAGS=-mod=mod GOPROXY=off GOSUMDB=off GOTOOLCHAIN=local GODEBUG=randseednop=0,asyncpreemptoff=1
-cd /repo || exit 2
-if [ -n "$(git status --porcelain)" ]; then echo "repo dirty"; exit 2; fi
+W=/tmp/mutest.$$; WT=$W/wt
+mkdir -p $W
+git -C /repo worktree add -q --detach $WT HEAD || exit 2
+trap 'git -C /repo worktree remove --force '$WT' 2>/dev/null; rm -rf '$W EXIT
+cd $WT
 sed -i "$EXPR" "$FILE"
 if [ -z "$(git status --porcelain)" ]; then echo "mutation did not change anything"; exit 2; fi
 git diff | grep '^[+-]' | grep -v '^+++\|^---'
-trap 'git -C /repo checkout -- .' EXIT
-(go build ./liteclient/... ./liteapi/... ./wallet/... ./tonconnect/... ./tl/... ./tlb/... ./boc/... ./ton/... ./abi/... ) || { echo "DOES NOT COMPILE"; exit 2; }
-W=/tmp/mutest.$$; mkdir -p $W
-(cd /verif/sim && go1.26.8 test -c -tags verif -o $W/worker.test ./worker) || { echo "worker build failed"; exit 2; }
-(cd $W && timeout 600 ./worker.test -test.run '^TestWorker$' -test.timeout 0 -verif.mode=batch -verif.prop=$PROP -verif.seed=${VERIF_SEED:-1} -verif.count=$COUNT -verif.journal=j.txt -verif.out=sum.json > out.log 2>&1; echo "worker exit=$?"; tail -3 out.log | cut -c1-300
+(GOTOOLCHAIN= go build ./liteclient/... ./liteapi/... ./wallet/... ./tonconnect/... ./tl/... ./tlb/... ./boc/... ./ton/... ./abi/... ) || { echo "DOES NOT COMPILE"; exit 2; }
+sed "s#=> /repo#=> $WT#" /verif/sim/go.mod > $W/go.mod; cp /verif/sim/go.sum $W/go.sum
+(cd /verif/sim && go1.26.8 test -modfile=$W/go.mod -c -tags verif -o $W/worker.test ./worker) || { echo "worker build failed"; exit 2; }
+(cd $W && timeout 900 ./worker.test -test.run '^TestWorker$' -test.timeout 0 -verif.mode=batch -verif.prop=$PROP -verif.seed=${VERIF_SEED:-1} -verif.count=$COUNT -verif.journal=j.txt -verif.out=sum.json > out.log 2>&1; echo "worker exit=$?"; grep -v "INFO\|reconnecting\|Cant close" out.log | tail -3 | cut -c1-300
 python3 - <<'PY'
 import json,collections,os
 if not os.path.exists('sum.json'):
@@ -28,4 +31,3 @@ print("runs",s['runs'],"violating runs",len(s.get('violations',[])))
 for k,n in c.items(): print(" ",n,k,first[k])
 PY
 )
-rm -rf $W
